@@ -73,3 +73,43 @@ impl Rng {
     }
     pub fn bytes(&mut self, n: usize) -> Vec<u8> { (0..n).map(|_| (self.next() >> 24) as u8).collect() }
 }
+
+pub fn lfold(b: u8) -> u8 { let c = if b == b'/' { b'\\' } else { b }; if c.is_ascii_uppercase() { c + 32 } else { c } }
+
+/// Bob Jenkins' one-at-a-time on 64-bit words over the lower-cased, backslash-normalised bytes
+pub fn oaat(bytes: &[u8]) -> u64 {
+    let mut h: u64 = 0;
+    for &b in bytes { h = h.wrapping_add(lfold(b) as u64); h = h.wrapping_add(h << 10); h ^= h >> 6; }
+    h = h.wrapping_add(h << 3); h ^= h >> 11; h = h.wrapping_add(h << 15);
+    h
+}
+
+fn rot(x: u32, k: u32) -> u32 { x.rotate_left(k) }
+
+/// lookup3.c hashlittle2, written byte-wise from the published source (little-endian, unaligned path)
+pub fn hashlittle2(key: &[u8], pc: u32, pb: u32) -> (u32, u32) {
+    let mut a = 0xdeadbeefu32.wrapping_add(key.len() as u32).wrapping_add(pc);
+    let mut b = a; let mut c = a.wrapping_add(pb);
+    let mut k = key;
+    let w = |k: &[u8], i: usize| -> u32 { (k[i] as u32) | ((k[i + 1] as u32) << 8) | ((k[i + 2] as u32) << 16) | ((k[i + 3] as u32) << 24) };
+    while k.len() > 12 {
+        a = a.wrapping_add(w(k, 0)); b = b.wrapping_add(w(k, 4)); c = c.wrapping_add(w(k, 8));
+        a = a.wrapping_sub(c); a ^= rot(c, 4); c = c.wrapping_add(b);
+        b = b.wrapping_sub(a); b ^= rot(a, 6); a = a.wrapping_add(c);
+        c = c.wrapping_sub(b); c ^= rot(b, 8); b = b.wrapping_add(a);
+        a = a.wrapping_sub(c); a ^= rot(c, 16); c = c.wrapping_add(b);
+        b = b.wrapping_sub(a); b ^= rot(a, 19); a = a.wrapping_add(c);
+        c = c.wrapping_sub(b); c ^= rot(b, 4); b = b.wrapping_add(a);
+        k = &k[12..];
+    }
+    if k.is_empty() { return (c, b); }
+    for (i, &byte) in k.iter().enumerate() {
+        let v = (byte as u32) << (8 * (i % 4));
+        match i / 4 { 0 => a = a.wrapping_add(v), 1 => b = b.wrapping_add(v), _ => c = c.wrapping_add(v) }
+    }
+    c ^= b; c = c.wrapping_sub(rot(b, 14)); a ^= c; a = a.wrapping_sub(rot(c, 11));
+    b ^= a; b = b.wrapping_sub(rot(a, 25)); c ^= b; c = c.wrapping_sub(rot(b, 16));
+    a ^= c; a = a.wrapping_sub(rot(c, 4)); b ^= a; b = b.wrapping_sub(rot(a, 14));
+    c ^= b; c = c.wrapping_sub(rot(b, 24));
+    (c, b)
+}
